@@ -14,7 +14,7 @@ CORPUS = os.path.join(core.VERIF, 'corpus')
 HOSTILE = ['//', '/*', '*/', '"', "'", '#line x', '#line 5', '#line', '#define QQZ QQZ\n', 'QQZ', '#define', '#include', '#include "nonexistent.hpp"',
            '#include "inc\\self.hpp"', '0x', '$', '1e', '1e+', '{', '}', '(', ')', '[', ']', '#', '##', '\\\n', '\x00', '\xff', '__LINE__', '__FILE__',
            '__EVAL(', '__EVAL(1+)', '#ifdef', '#ifdef X', '#ifndef', '#endif', '#else', '#undef', '#pragma', '#pragma x y', ';', ',', ':', '=', '+=', 'class', 'delete',
-           'ADD(', 'ADD(1', 'ADD(1,2,3)', 'STR(', 'CAT(a', '\r', '\t', '\n#', '""', "''", '.', '-', '..', '1.2.3', '1e999', 'private', 'true', '&&', '||', '>>']
+           'ADD(', 'ADD(1', 'ADD(1,2,3)', '/* c */', ' /* c */ ', ' \\\n', '// c\n', 'STR(', 'CAT(a', '\r', '\t', '\n#', '""', "''", '.', '-', '..', '1.2.3', '1e999', 'private', 'true', '&&', '||', '>>']
 
 
 def load_corpus():
@@ -59,6 +59,12 @@ def specials():
     out.append(('define-eof', '#define'))
     out.append(('define-eof2', '#define A('))
     out.append(('macro-call-eof', '#define F(a,b) a b\nx = F(1,'))
+    # comments, continuations and stray CRs at every argument boundary of a macro call
+    seps = {'block': '/* c */', 'cont': '\\\n', 'cr': '\r', 'line': '// c\n', 'blockws': ' /* c */ ', 'contws': ' \\\n ', 'crlf': '\r\n'}
+    for sname, sep in seps.items():
+        for pos, call in (('after-open', 'PAIR(%s1,2)'), ('before-comma', 'PAIR(1%s,2)'), ('after-comma', 'PAIR(1,%s2)'), ('before-close', 'PAIR(1,2%s)'),
+                          ('only-first', 'PAIR(%s,2)'), ('only-second', 'PAIR(1, %s)'), ('nested', 'PAIR(PAIR(1,%s),2)')):
+            out.append(('macro-arg:%s:%s' % (sname, pos), '#define PAIR(A,B) [A,B]\nx = ' + call % sep + ';\ny = 3;\n'))
     out.append(('include-eof', '#include "'))
     out.append(('ifdef-eof', '#ifdef'))
     out.append(('line-eof', '#line'))
